@@ -747,3 +747,53 @@ pub fn read_clusters(bitstream: &mut Bitstream, num_dist: u32) -> CodingResult<(
         Ok((num_clusters, cluster))
     }
 }
+
+/// Verification hooks (`--cfg jxl_oxide_verif`): add-only access to crate-private decoder parts
+/// for the out-of-tree harness crate.
+#[cfg(jxl_oxide_verif)]
+pub mod verif {
+    use super::*;
+
+    pub use crate::ans::Histogram as AnsHistogram;
+    pub use crate::prefix::Histogram as PrefixHistogram;
+
+    /// Hybrid integer configuration as parsed by `IntegerConfig::parse`.
+    #[derive(Debug, Copy, Clone)]
+    pub struct IntConf {
+        pub split_exponent: u32,
+        pub msb_in_token: u32,
+        pub lsb_in_token: u32,
+    }
+
+    pub fn parse_integer_config(
+        bitstream: &mut Bitstream,
+        log_alphabet_size: u32,
+    ) -> CodingResult<IntConf> {
+        let c = IntegerConfig::parse(bitstream, log_alphabet_size)?;
+        Ok(IntConf {
+            split_exponent: c.split_exponent,
+            msb_in_token: c.msb_in_token,
+            lsb_in_token: c.lsb_in_token,
+        })
+    }
+
+    /// `DecoderInner::read_uint_prefilled` with the given configuration and token.
+    pub fn read_uint_prefilled(bitstream: &mut Bitstream, conf: &IntConf, token: u32) -> u32 {
+        let inner = DecoderInner {
+            clusters: Vec::new(),
+            configs: Vec::new(),
+            code: Coder::PrefixCode(Arc::new(Vec::new())),
+        };
+        let config = IntegerConfig {
+            split_exponent: conf.split_exponent,
+            split: 1 << conf.split_exponent,
+            msb_in_token: conf.msb_in_token,
+            lsb_in_token: conf.lsb_in_token,
+        };
+        inner.read_uint_prefilled(bitstream, &config, token)
+    }
+
+    pub fn add_log2_ceil(x: u32) -> u32 {
+        super::add_log2_ceil(x)
+    }
+}
